@@ -373,6 +373,7 @@ func oracleC13(r *RunCtx, rec *BlockRecord, txs []*TxInfo) {
 			logs += n
 			if rc.Receipt.CumulativeGasUsed != cum {
 				r.Violate("C13", "cumulative_gas", nil, "cumulativeGasUsed=%d, running sum %d", rc.Receipt.CumulativeGasUsed, cum)
+				r.Violate("C05", "cumulative_gas", nil, "cumulativeGasUsed=%d, running sum of gas used over the block's Ethereum txs %d", rc.Receipt.CumulativeGasUsed, cum) // the last clause of C05's statement
 			}
 			if (rc.Receipt.Status == ethtypes.ReceiptStatusSuccessful) == rc.HasErr {
 				r.Violate("C13", "status_vs_error", nil, "status=%d but error attribute present=%v", rc.Receipt.Status, rc.HasErr)
